@@ -4,6 +4,9 @@
 use crate::util::{Rng, Stats};
 
 pub mod finalstage;
+pub mod clock;
+pub mod clocksys;
+pub mod clocktear;
 pub mod param;
 pub mod srate;
 pub mod system;
@@ -27,6 +30,9 @@ pub fn gen(suite: &str, rng: &mut Rng, n: usize, thorough: bool, stats: &mut Sta
 		"lfo" => lfo::gen(rng, n, thorough, stats),
 		"tweener" => tweener::gen(rng, n, thorough, stats),
 		"modsys" => modsys::gen(rng, n, thorough, stats),
+		"clock" => clock::gen(rng, n, thorough, stats),
+		"clocksys" => clocksys::gen(rng, n, thorough, stats),
+		"clocktear" => clocktear::gen(rng, n, thorough, stats),
 		_ => panic!("unknown suite {}", suite),
 	}
 }
@@ -41,6 +47,9 @@ pub fn run(suite: &str, ops: &[String]) -> Vec<String> {
 		"lfo" => lfo::run(ops),
 		"tweener" => tweener::run(ops),
 		"modsys" => modsys::run(ops),
+		"clock" => clock::run(ops),
+		"clocksys" => clocksys::run(ops),
+		"clocktear" => clocktear::run(ops),
 		_ => panic!("unknown suite {}", suite),
 	}
 }
